@@ -4,6 +4,9 @@
 //! directory → the real `Metadata::paths` → `dst`/`map` of every source file.
 //!   `path <target> <map> <base> <rel>`            → `dst=<path> map=<path>` (relative to the project)
 //!   `distinct <target> <map> [base:rel,…]`        → `dst=ok|dup map=ok|dup`  (oracle: `dst=ok map=ok`)
+//!   `deps [dep:project:rel,…]`                    → `[dst,…]` of the files of PATH DEPENDENCIES (`Lockfile::paths`):
+//!                                                  dependency name, its own `[project] name`, file below its root
+//!   `depsdistinct [dep:project:rel,…]`            → `ok|dup` (oracle `ok`): no two dependency files share a dst/map
 //! with target = `s` | `d:<dir>` | `b:<file>`, map = `t` | `d:<dir>` | `n`, paths `a/b/c` (`.` = empty),
 //! `rel` the source file below the source directory `base` without its `.veryl` extension.
 //!
@@ -94,6 +97,51 @@ fn real_paths(dir: &Path, target: &str, map: &str, files: &[(String, String)]) -
     Ok(out)
 }
 
+/// Root project `<dir>/main` with one path dependency per distinct dependency name (project
+/// `<dir>/deps/<dep>`, whose own `[project] name` is the second field); returns (dst, map) of each
+/// listed dependency file relative to the root project, via the real `Metadata::paths(.., true)`
+/// (→ `update_lockfile` → `Lockfile::paths`).
+fn real_dep_paths(dir: &Path, entries: &[(String, String, String)]) -> Result<Vec<(String, String)>, String> {
+    let _ = fs::remove_dir_all(dir);
+    let main = dir.join("main");
+    fs::create_dir_all(main.join("src")).map_err(|e| e.to_string())?;
+    fs::write(main.join("src/top.veryl"), "module Top {}\n").map_err(|e| e.to_string())?;
+    let mut deps: Vec<(String, String)> = vec![];
+    for (d, p, _) in entries {
+        if !deps.iter().any(|x| &x.0 == d) {
+            deps.push((d.clone(), p.clone()));
+        }
+    }
+    let mut toml = String::from("[project]\nname = \"prj\"\nversion = \"0.1.0\"\n[build]\nsources = [\"src\"]\ntarget = {type = \"directory\", path = \"target\"}\nexclude_std = true\n[dependencies]\n");
+    for (d, p) in &deps {
+        toml.push_str(&format!("{d} = {{path = \"../deps/{d}\"}}\n"));
+        let dd = dir.join("deps").join(d);
+        fs::create_dir_all(&dd).map_err(|e| e.to_string())?;
+        fs::write(dd.join("Veryl.toml"), format!("[project]\nname = \"{p}\"\nversion = \"0.1.0\"\n[build]\nexclude_std = true\n")).map_err(|e| e.to_string())?;
+    }
+    fs::write(main.join("Veryl.toml"), toml).map_err(|e| e.to_string())?;
+    for (d, _, rel) in entries {
+        let f = dir.join("deps").join(d).join(format!("{rel}.veryl"));
+        fs::create_dir_all(f.parent().unwrap()).map_err(|e| e.to_string())?;
+        fs::write(&f, "pub module M {}\n").map_err(|e| e.to_string())?;
+    }
+    let mut md = Metadata::load(main.join("Veryl.toml")).map_err(|e| format!("{e}"))?;
+    let root = md.project_path();
+    let sets = md.paths::<PathBuf>(&[], false, true).map_err(|e| format!("{e}"))?;
+    let mut out = vec![];
+    for (d, _, rel) in entries {
+        let src = dir.join("deps").join(d).join(format!("{rel}.veryl"));
+        let src = src.canonicalize().unwrap_or(src);
+        let hit = sets.iter().find(|s| s.src == src).ok_or(format!("no PathSet for {}", src.display()))?;
+        if &hit.prj != d {
+            return Err(format!("prj {} for dependency {d}", hit.prj));
+        }
+        let rel_of = |p: &Path| p.strip_prefix(&root).map(show).unwrap_or_else(|_| format!("!{}", p.display()));
+        out.push((rel_of(&hit.dst), rel_of(&hit.map)));
+    }
+    Ok(out)
+}
+
 fn all_distinct(v: &[String]) -> bool {
     let mut s = std::collections::BTreeSet::new();
     v.iter().all(|x| s.insert(x.clone()))
@@ -122,6 +170,26 @@ fn exec(line: &str, dir: &Path, log: &mut Log) -> (String, String) {
                     format!("dst={} map={}", if d { "ok" } else { "dup" }, if m { "ok" } else { "dup" }),
                     "dst=ok map=ok".to_string(),
                 ))
+            }
+            [op @ ("deps" | "depsdistinct"), list] if list.starts_with('[') && list.ends_with(']') && list.len() > 2 => {
+                let entries: Vec<(String, String, String)> = list[1..list.len() - 1]
+                    .split(',')
+                    .map(|x| {
+                        let f: Vec<&str> = x.split(':').collect();
+                        if f.len() == 3 { Ok((f[0].to_string(), f[1].to_string(), f[2].to_string())) } else { Err("bad-op".to_string()) }
+                    })
+                    .collect::<Result<_, _>>()?;
+                let v = real_dep_paths(dir, &entries)?;
+                if *op == "deps" {
+                    Ok((format!("[{}]", v.iter().map(|x| x.0.clone()).collect::<Vec<_>>().join(",")), "?".to_string()))
+                } else {
+                    let d = all_distinct(&v.iter().map(|x| x.0.clone()).collect::<Vec<_>>())
+                        && all_distinct(&v.iter().map(|x| x.1.clone()).collect::<Vec<_>>());
+                    if !d {
+                        log.count("dep_dst_collisions");
+                    }
+                    Ok((if d { "ok".to_string() } else { "dup".to_string() }, "ok".to_string()))
+                }
             }
             _ => Ok(("bad-op".to_string(), "bad-op".to_string())),
         }
@@ -159,6 +227,26 @@ fn gen_lines(r: &mut Rng, n: u64) -> Vec<String> {
     let mut lines = vec![];
     for _ in 0..n {
         let (target, map) = gen_cfg(r);
+        if r.chance(1, 8) {
+            // path dependencies: several dependency names, some sharing one `[project] name`
+            let k = 2 + r.below(4);
+            let mut entries: Vec<String> = vec![];
+            let mut seen: Vec<(String, String)> = vec![];
+            for _ in 0..k {
+                let d = *r.pick(&["x", "y", "z", "common"]);
+                let p = *r.pick(&["common", "common", "lib"]);
+                let rel = if r.chance(1, 2) { format!("src/{}", gen_rel(r)) } else { gen_rel(r) };
+                if !seen.contains(&(d.to_string(), rel.clone())) {
+                    seen.push((d.to_string(), rel.clone()));
+                    // one project name per dependency: the first one chosen
+                    let p = entries.iter().find(|e| e.starts_with(&format!("{d}:"))).map(|e| e.split(':').nth(1).unwrap().to_string()).unwrap_or(p.to_string());
+                    entries.push(format!("{d}:{p}:{rel}"));
+                }
+            }
+            let op = if r.chance(1, 2) { "deps" } else { "depsdistinct" };
+            lines.push(format!("{op} [{}]", entries.join(",")));
+            continue;
+        }
         if r.chance(1, 2) {
             lines.push(format!("path {target} {map} {} {}", r.pick(BASES), gen_rel(r)));
         } else {
@@ -321,7 +409,7 @@ pub fn main(opts: &Opts) -> i32 {
         let (imp, ora) = exec(line, &dir, &mut log);
         let t: Vec<&str> = line.split(' ').collect();
         log.count(&format!("op_{}", t[0]));
-        if t.len() > 2 {
+        if t.len() > 3 {
             log.count(&format!("target_{}", &t[1][..1]));
             log.count(&format!("map_{}", &t[2][..1]));
         }
